@@ -266,6 +266,19 @@ def gen_cases(ctx):
                                 c['specs'][name]['items'][key] = F(0)
                 c['force_dense'] = True
                 cases.append(c)
+    # an on-site coupling that is exactly zero on ONE site (an impurity-like pattern): the other sites keep their full shares
+    for m in MODELS:
+        for gi, g in enumerate(([(0, 1), (1, 2), (2, 3)], [(0, 1), (0, 2), (0, 3)])):
+            for form in ('dict', 'callable'):
+                c = make_case(m, MODELS[m]['syms'][gi % len(MODELS[m]['syms'])], 'int', list(g), ['scalar' if ar == 2 else form for _, ar in MODELS[m]['coefs']])
+                sites_ = list(dict.fromkeys(x for e in g for x in e))
+                for (name, ar) in MODELS[m]['coefs']:
+                    if ar == 1:
+                        zero_sites = [sites_[(gi + 1) % len(sites_)]] if name != 'U' else [s_ for s_ in sites_ if s_ != sites_[(gi + 2) % len(sites_)]]
+                        for s_ in zero_sites:
+                            c['specs'][name]['items'][s_] = F(0)
+                c['force_dense'] = True
+                cases.append(c)
     # calls that must raise: a bond / a site missing from a coefficient dict
     for m in MODELS:
         for kind in ('int', 'str_multi'):
